@@ -240,6 +240,8 @@ var ringStarts = []struct {
 }{
 	{1, nil}, {2, nil}, {2, []ringOp{opPush}}, {1, []ringOp{opPush}}, {2, []ringOp{opPush, opPop, opPush}},
 	{3, []ringOp{opPush, opPush, opPop, opPop, opPush, opPush}}, {2, []ringOp{opPush, opPush, opPop}}, {4, []ringOp{opPush, opPush, opPush}},
+	// full buffers (a PopN frees slots that the very next Push reuses without growing), unwrapped and wrapped
+	{2, []ringOp{opPush, opPush}}, {2, []ringOp{opPush, opPop, opPush, opPush}}, {3, []ringOp{opPush, opPush, opPush}},
 }
 
 func ringConcInstance(nthreads int, progs [][]ringOp) vsched.Instance {
